@@ -265,6 +265,9 @@ class Eval:
             st0 = (dict(self.env), dict(self.fields), dict(self.cells))
             if cnd.get("k") == "letx":
                 src = pretty(strip(cnd["init"]))
+                i0_ = strip(cnd["init"])
+                if i0_.get("k") == "local" and i0_["hid"] in getattr(self, "alias", {}):
+                    src = self.alias[i0_["hid"]]      # `let decay = self.decay; if let Some(d) = decay`
                 binds = pat_binds(cnd["pat"])
                 for nm, hid in binds:
                     self.env[hid] = self.some.get(src, top(self.c.types[_find_bind(cnd["pat"], hid)["t"]].lstrip("&")))
@@ -466,10 +469,14 @@ class Eval:
             raise ValueError("E2: unsupported assignment target " + pretty(l))
 
     def block(self, b):
+        last = None
         for s in b["stmts"]:
-            self.stmt(s)
+            last = self.stmt(s)
         if b["tail"] is not None:
             return self.eval(b["tail"])
+        s_last = strip(b["stmts"][-1]) if b["stmts"] else None
+        if last is not None and s_last is not None and s_last.get("k") == "mcall" and s_last["name"] == "push":
+            return last          # per-element body `out.push(e);`: the element value
         return top("()")
 
     def stmt(self, s):
@@ -480,7 +487,7 @@ class Eval:
             if len(binds) == 1 and s["pat"].get("k") == "bind" and v is not None:
                 self.env[binds[0][1]] = v
             return
-        self.eval(s)
+        return self.eval(s)
 
     # -- arithmetic
     def bin(self, n):
@@ -632,6 +639,9 @@ class Eval:
         name = n["name"]
         if callee in self.summaries:
             return self.summaries[callee](self, n)
+        if n["name"] == "push" and len(n["args"]) == 1 and callee.startswith("std::vec::Vec"):
+            # per-element bodies written as `out.push(e)`: the element value is e
+            return self.eval(n["args"][0])
         if callee in self.c.fns:
             r = self.inline_local(callee, [n["recv"]] + list(n["args"]), n)
             if r is not None:
@@ -786,6 +796,12 @@ def eval_fn_lets(ev, fn, upto=None):
             break
         if s.get("k") == "let" and s["pat"].get("k") == "bind" and s["init"] is not None:
             ty = (ev.c.types[s["pat"]["t"]] or "").lstrip("&")
+            if ty.startswith("std::option::Option<") and "Mut)" not in str(s["pat"].get("mode")):
+                i0 = strip(s["init"])
+                if i0.get("k") == "field":
+                    if not hasattr(ev, "alias"):
+                        ev.alias = {}
+                    ev.alias[s["pat"]["hid"]] = pretty(i0)
             if ty in ("f32", "f64", "usize", "i32", "u64", "bool"):
                 saved = ev.ob
                 ev.ob = lambda *a, **k: None     # obligations of hoisted temporaries are re-generated at their uses
